@@ -82,7 +82,7 @@ pub fn run_check(def: &PropertyDef, tier: &str, seed: u64) -> i32 {
         return 2;
     }
     let workers = worker_count();
-    let spec = PoolSpec { property: def.id.into(), tier: tier.into(), seed, from: 0, to: def.n_cases, workers, twice: false };
+    let spec = PoolSpec { property: def.id.into(), tier: tier.into(), seed, from: 0, to: def.n_cases, workers, twice: false, trace: false };
     let pool = match run_pool(&spec) {
         Ok(p) => p,
         Err(e) => {
@@ -109,6 +109,7 @@ pub fn run_check(def: &PropertyDef, tier: &str, seed: u64) -> i32 {
             to,
             workers: 3,
             twice: true,
+            trace: false,
         };
         // group sampled indices into runs of single cases, executed by a 3-worker pool each
         let handles: Vec<_> = idxs
@@ -154,24 +155,36 @@ pub fn run_check(def: &PropertyDef, tier: &str, seed: u64) -> i32 {
     let mut crash_violations: Vec<(u64, Violation)> = vec![];
     for c in &pool.crashes {
         *m.counters.entry("worker_crashes".into()).or_insert(0) += 1;
-        // confirm in a fresh process
-        let again = run_pool(&PoolSpec { property: def.id.into(), tier: tier.into(), seed, from: c.idx, to: c.idx + 1, workers: 1, twice: false });
-        let reproduced = matches!(&again, Ok(p) if !p.crashes.is_empty());
+        // confirm in a fresh process, in trace mode: the worker announces every world before running it
+        let again = run_pool(&PoolSpec { property: def.id.into(), tier: tier.into(), seed, from: c.idx, to: c.idx + 1, workers: 1, twice: false, trace: true });
+        let again_crash = match &again {
+            Ok(p) => p.crashes.first().cloned(),
+            Err(_) => None,
+        };
         println!(
             "NOTE: worker died in case {} ({}); fresh-process re-run {}: {}",
             c.idx,
             c.status,
-            if reproduced { "died again" } else { "did not die" },
+            if again_crash.is_some() { "died again" } else { "did not die" },
             c.stderr_tail.lines().last().unwrap_or("")
         );
-        if !reproduced {
+        let Some(ac) = again_crash else {
             println!("HARNESS-ERROR: a worker death did not reproduce in a fresh process (case {})", c.idx);
             return 2;
-        }
+        };
         if def.crash_is_violation {
+            let world: serde_json::Value = ac.last_world.as_deref().and_then(|w| serde_json::from_str(w).ok()).unwrap_or(serde_json::Value::Null);
+            let last = c
+                .stderr_tail
+                .lines()
+                .rev()
+                .find(|l| l.contains("memory allocation") || l.contains("overflow") || l.contains("panicked") || l.contains("fatal"))
+                .or(c.stderr_tail.lines().last())
+                .unwrap_or("")
+                .to_string();
             let replay = serde_json::json!({
                 "property": def.id, "class": "process_died", "verif_seed": seed, "case": c.idx, "tier": tier,
-                "by_case_index": true,
+                "world": world,
                 "observed": { "status": c.status, "stderr_tail": c.stderr_tail },
             });
             crash_violations.push((
@@ -180,7 +193,7 @@ pub fn run_check(def: &PropertyDef, tier: &str, seed: u64) -> i32 {
                     property: def.id.into(),
                     class: "process_died".into(),
                     signature: format!("process_died:{}", c.status.replace(' ', "_")),
-                    what: format!("the process aborted / was killed inside case {}: {}", c.idx, c.status),
+                    what: format!("the process aborted / was killed while running this world: {} {}", c.status, last),
                     replay,
                 },
             ));
